@@ -90,7 +90,8 @@ def randomised(cfg):
 # containers (C18) -- how one operation's data is delivered
 # --------------------------------------------------------------------------------------------------
 
-CONTAINERS = ("list", "ndarray", "ndarray_F", "ndarray_slice", "ndarray_float", "series_frame", "frame_F")
+CONTAINERS = ("list", "ndarray", "ndarray_F", "ndarray_slice", "ndarray_T", "ndarray_float", "series_frame", "frame_F",
+              "series_auto")
 
 
 def _vec(values, kind, is_reward):
@@ -99,7 +100,7 @@ def _vec(values, kind, is_reward):
     arr = np.asarray(values)
     if kind == "ndarray_float" and is_reward and arr.dtype.kind in "iu":
         arr = arr.astype(float)
-    if kind in ("series_frame", "frame_F"):
+    if kind in ("series_frame", "frame_F", "series_auto"):
         return pd.Series(arr)
     if kind == "ndarray_slice":
         big = np.empty(2 * len(arr), dtype=arr.dtype)
@@ -122,6 +123,15 @@ def _mat(rows, kind):
         arr = arr.astype(float)
     if kind == "ndarray_F":
         return np.asfortranarray(arr)
+    if kind == "ndarray_T":
+        return np.ascontiguousarray(arr.T).T      # transposed view of a C array (neither copy nor C-contiguous)
+    if kind == "series_auto":
+        # Series disambiguation: one row with d features, or n rows with a single feature
+        if arr.shape[0] == 1:
+            return pd.Series(arr[0])
+        if arr.shape[1] == 1:
+            return pd.Series(arr[:, 0])
+        return pd.DataFrame(arr)
     if kind == "ndarray_slice":
         big = np.zeros((arr.shape[0], 2 * arr.shape[1]), dtype=arr.dtype)
         big[:, ::2] = arr
@@ -202,8 +212,10 @@ class Session:
                 return False
         return True
 
-    def apply(self, op, container="list", sched=None):
-        """Execute one operation. Returns ('skip',None) | ('ok', value) | ('exc', ExceptionTypeName)."""
+    def apply(self, op, container="list", sched=None, hook=None):
+        """Execute one operation. Returns ('skip',None) | ('ok', value) | ('exc', ExceptionTypeName).
+        hook(phase, objs) is called with the caller-owned argument objects before and after the call."""
+        objs = []
         ctx = kernel.cur()
         kind = op["op"]
         mab = self.mab
@@ -217,6 +229,7 @@ class Session:
             rew = _vec([r[1] for r in rows], container, True)
             X = _mat([r[2] for r in rows], container) if self.ctxl else None
             fn = mab.fit if kind == "fit" else mab.partial_fit
+            objs = [dec, rew, X]
             call = (lambda: fn(dec, rew, X)) if self.ctxl else (lambda: fn(dec, rew))
             acts_as_fit = kind == "fit" or not self.fitted
 
@@ -235,6 +248,7 @@ class Session:
             if not self.fitted:
                 return ("skip", None)
             Xq = _mat(Q, container)
+            objs = [Xq]
             fn = mab.predict if kind == "predict" else mab.predict_expectations
             call = (lambda: fn(Xq)) if Q is not None else (lambda: fn())
         elif kind == "add_arm":
@@ -257,6 +271,7 @@ class Session:
                 if a not in feats:
                     feats[a] = list(op["default"])
             feats = {a: feats[a] for a in mab.arms}
+            objs = [feats]
             if not self.fitted and self.ctxl and self.cfg["lp"][0] in LINEAR:
                 return ("skip", None)
             call = lambda: mab.warm_start(feats, float(op["q"]))   # noqa: E731
@@ -264,14 +279,20 @@ class Session:
             raise kernel.HarnessError("unknown op " + str(kind))
         ctx.sched = kernel.Sched.from_json(sched) if sched is not None else None
         ctx.parallel_calls = 0
+        if hook:
+            hook("before", objs)
         try:
             val = call()
         except kernel.HarnessError:
             raise
         except Exception as e:
+            if hook:
+                hook("after", objs)
             return ("exc", type(e).__name__)
         finally:
             ctx.sched = None
+        if hook:
+            hook("after", objs)
         if post:
             post()
         return ("ok", val)
